@@ -2,6 +2,7 @@
 package main
 
 import (
+	"strings"
 	"k8s.io/gengo/v2/namer"
 	"k8s.io/gengo/v2/types"
 )
@@ -20,13 +21,18 @@ var c14Affixes = []string{"", "", "", "Foo", "foo", "2", "12", "S", "Slice", "x_
 
 func (g *Gen) c14cfg() c14cfg {
 	c := c14cfg{prefix: g.Pick(c14Affixes), suffix: g.Pick(c14Affixes), public: g.Chance(0.5)}
-	switch g.R.Intn(4) {
+	switch g.R.Intn(6) {
 	case 0:
 		c.ignoreNil = true
 	case 1:
 		c.ignore = []string{"proto"}
 	case 2:
 		c.ignore = []string{"pkg", "apis", "v1"}
+	case 3:
+		// ignore words are compared with the directory names as written, not as sanitised
+		c.ignore = []string{"k8s.io", "core-v1", "my-pkg"}
+	case 4:
+		c.ignore = []string{"ab", "proto", "k8sio"}
 	}
 	c.prepend = []int{0, 0, 1, 1, 2, 5, -1}[g.R.Intn(7)]
 	return c
@@ -108,6 +114,20 @@ func c14(g *Gen) {
 		}
 		if !c.public {
 			cls = append(cls, "private")
+		}
+		if c.prepend > 0 {
+			for _, s := range subs {
+				if s.Kind != "named" {
+					continue
+				}
+				for _, w := range c.ignore {
+					for _, d := range strings.Split(s.Pkg, "/") {
+						if strings.ContainsAny(w+d, ".-") && (d == w || strings.NewReplacer(".", "", "-", "").Replace(d) == w) {
+							cls = append(cls, "ignore-word-with-punctuation")
+						}
+					}
+				}
+			}
 		}
 		for _, s := range order {
 			t := s.Build(named)
